@@ -1,0 +1,39 @@
+//go:build verif
+
+// Package verifhook holds notification points used by the external verification harness.
+package verifhook
+
+import "sync"
+
+var (
+	mtx       sync.Mutex
+	onTreeOp  func(ledger string, set bool, key []byte)
+	onDurable func(store string)
+)
+
+// SetCallbacks registers (or clears, with nil) the harness callbacks.
+func SetCallbacks(treeOp func(ledger string, set bool, key []byte), durable func(store string)) {
+	mtx.Lock()
+	defer mtx.Unlock()
+	onTreeOp, onDurable = treeOp, durable
+}
+
+// TreeOp is called for each tree.Remove (set=false) / tree.Set (set=true) of a ledger commit.
+func TreeOp(ledger string, set bool, key []byte) {
+	mtx.Lock()
+	f := onTreeOp
+	mtx.Unlock()
+	if f != nil {
+		f(ledger, set, key)
+	}
+}
+
+// DurableWrite is called right after a durable write of the commit sequence completed.
+func DurableWrite(store string) {
+	mtx.Lock()
+	f := onDurable
+	mtx.Unlock()
+	if f != nil {
+		f(store)
+	}
+}
